@@ -93,4 +93,16 @@ def MD(self, a="d"):
     return self.n0
 
 
+
+import dataclasses as _dc
+
+
+def _mk_dc(i):
+    return _dc.make_dataclass(f"DC{i}", [("x", int, 1), ("y", str, "d")], namespace={"__module__": __name__})
+
+
+for _i in range(8):
+    globals()[f"DC{_i}"] = _mk_dc(_i)
+
+
 MACROS = {"MA": MA, "MB": MB, "MC": MC, "MD": MD}
